@@ -1,9 +1,13 @@
 //! C19 correspondence: one fleet call against a scripted node (one behaviour per
 //! attempt, switched synchronously by the `fleet.attempt` probe), then calls
 //! against the healthy node; and tag-filtered broadcasts.
+//! `mon=<n>` (async): the same scenario while n monitor tasks poll
+//! `is_connected` / `connected_nodes` from other runtime threads.
+//! `duo=1`: two concurrent callers on one node sharing its cached connection;
+//! caller A is never answered, caller B (sent later) is answered in time.
 use repe::{AsyncFleet, Fleet, FleetOptions, NodeConfig, RepeError, RetryPolicy};
 use repe_verif_harness::*;
-use std::cell::RefCell;
+use std::cell::{Cell, RefCell};
 use std::collections::VecDeque;
 use std::io::{Read, Write};
 use std::net::{Shutdown, TcpListener, TcpStream};
@@ -16,6 +20,34 @@ enum B { Refused, AccClosed, ClosedIdle, Silent, Malformed, AppError, Success,
          /// harness-only: a success frame (ec 0, JSON) whose body stops mid-document; the model sees an application-level error reply
          BadJson }
 fn parse_b(c: char) -> B { match c { 'R' => B::Refused, 'A' => B::AccClosed, 'I' => B::ClosedIdle, 'S' => B::Silent, 'M' => B::Malformed, 'E' => B::AppError, 'J' => B::BadJson, _ => B::Success } }
+
+/// `duo=1` cases: two callers (A: "/hang", never answered; B: "/slow", answered once A has given its
+/// attempt up) on one node. One case at a time per process, so the state is process-wide.
+struct Duo {
+    a_att: AtomicU64, b_att: AtomicU64,
+    /// A has given up its first attempt: it starts a second attempt (probe) or has returned
+    a_gone: AtomicBool,
+    hang: AtomicU64, slow: AtomicU64,
+    /// just before caller B enters its fleet call (B's deadline is at least DUO_T later)
+    b_start: Mutex<Option<Instant>>,
+    /// 1: the node wrote its reply to B's first request while B's deadline was still DUO_MARGIN away; 2: it could not
+    ready: AtomicU64,
+}
+static DUO: Mutex<Option<Arc<Duo>>> = Mutex::new(None);
+thread_local! { static ROLE: Cell<u8> = const { Cell::new(0) }; }
+const DUO_T: Duration = Duration::from_millis(1500);
+const DUO_MARGIN: Duration = Duration::from_millis(450);
+
+fn ok_frame(id: u64, query: &[u8], body: &[u8]) -> Vec<u8> {
+    let mut f = Vec::new();
+    f.extend_from_slice(&((48 + query.len() + body.len()) as u64).to_le_bytes());
+    f.extend_from_slice(&0x1507u16.to_le_bytes()); f.push(1); f.push(0); f.extend_from_slice(&0u32.to_le_bytes());
+    f.extend_from_slice(&id.to_le_bytes());
+    f.extend_from_slice(&(query.len() as u64).to_le_bytes()); f.extend_from_slice(&(body.len() as u64).to_le_bytes());
+    f.extend_from_slice(&1u16.to_le_bytes()); f.extend_from_slice(&2u16.to_le_bytes()); f.extend_from_slice(&0u32.to_le_bytes());
+    f.extend_from_slice(query); f.extend_from_slice(body);
+    f
+}
 
 /// A scripted node on a fixed loopback port.
 struct Node {
@@ -72,6 +104,24 @@ impl Node {
             let id = u64::from_le_bytes(req[16..24].try_into().unwrap());
             let ql = u64::from_le_bytes(req[24..32].try_into().unwrap()) as usize;
             let query = &req[48..48 + ql];
+            let duo = DUO.lock().unwrap().clone();
+            if let Some(d) = duo {
+                if query == b"/hang" { d.hang.fetch_add(1, Ordering::SeqCst); continue; }
+                if query == b"/slow" {
+                    // answer B once A has given its attempt up (capped), on the connection the request came on
+                    let n = d.slow.fetch_add(1, Ordering::SeqCst) + 1;
+                    let t0 = Instant::now();
+                    while !d.a_gone.load(Ordering::SeqCst) && t0.elapsed() < 4 * DUO_T { std::thread::sleep(Duration::from_millis(1)); }
+                    let gone = d.a_gone.load(Ordering::SeqCst);
+                    let w = s.write_all(&ok_frame(id, query, b"{\"ok\":true}"));
+                    if n == 1 {
+                        let in_time = d.b_start.lock().unwrap().map(|b| b.elapsed() + DUO_MARGIN <= DUO_T).unwrap_or(false);
+                        d.ready.store(if gone && in_time { 1 } else { 2 }, Ordering::SeqCst);
+                    }
+                    if w.is_err() { return; }
+                    continue;
+                }
+            }
             let mode = *self.mode.lock().unwrap();
             match mode {
                 B::AccClosed | B::Refused => { let _ = s.shutdown(Shutdown::Both); return; }
@@ -125,6 +175,14 @@ thread_local! { static CUR: RefCell<Option<Scenario>> = const { RefCell::new(Non
 
 fn on_probe(point: &'static str) {
     if point != "fleet.attempt" { return; }
+    let role = ROLE.with(|r| r.get());
+    if role != 0 {
+        if let Some(d) = DUO.lock().unwrap().clone() {
+            if role == 1 { if d.a_att.fetch_add(1, Ordering::SeqCst) + 1 >= 2 { d.a_gone.store(true, Ordering::SeqCst); } }
+            else { d.b_att.fetch_add(1, Ordering::SeqCst); }
+        }
+        return;
+    }
     CUR.with(|c| {
         if let Some(sc) = c.borrow_mut().as_mut() {
             sc.attempts += 1;
@@ -148,7 +206,7 @@ fn kind_s(e: &RepeError) -> String {
 
 const TIMEOUT: Duration = Duration::from_millis(250);
 
-fn run_scenario(kind: &str, max: usize, script: &str, nfollow: usize) -> String {
+fn run_scenario(kind: &str, max: usize, script: &str, nfollow: usize, mon: usize) -> String {
     let node = Node::start();
     let cfg = NodeConfig::new("127.0.0.1", node.port).unwrap().with_name("n0").unwrap().with_timeout(TIMEOUT).unwrap();
     // the back-off delay is 0 for every other script (the attempt bound does not depend on it)
@@ -170,10 +228,25 @@ fn run_scenario(kind: &str, max: usize, script: &str, nfollow: usize) -> String 
         }
         out.push_str(&format!(" follow={}", if fl.is_empty() { "-".into() } else { fl.join(",") }));
     } else {
-        // a current-thread runtime keeps the probe on this thread
-        let rt = tokio::runtime::Builder::new_current_thread().enable_all().build().unwrap();
+        // a current-thread runtime keeps the probe on this thread; with monitors (mon > 0) the runtime has
+        // worker threads for them, and the calls below still run on this thread (`block_on`)
+        let rt = if mon == 0 { tokio::runtime::Builder::new_current_thread().enable_all().build().unwrap() }
+                 else { tokio::runtime::Builder::new_multi_thread().worker_threads(mon + 1).enable_all().build().unwrap() };
         rt.block_on(async {
             let fleet = AsyncFleet::with_options(vec![cfg], opts).unwrap();
+            // observers only: they look at the node while the scenario runs and change nothing
+            let stop = Arc::new(AtomicBool::new(false));
+            let monitors: Vec<_> = (0..mon).map(|k| {
+                let (fleet, stop) = (fleet.clone(), stop.clone());
+                tokio::spawn(async move {
+                    let mut spins = 0u64;
+                    while !stop.load(Ordering::Relaxed) {
+                        if k % 3 == 2 { let _ = fleet.connected_nodes().await; } else { let _ = fleet.is_connected("n0").await; }
+                        spins += 1;
+                        if spins % 64 == 0 { tokio::task::yield_now().await; }
+                    }
+                })
+            }).collect();
             let r = fleet.call_json("n0", "/x", Some(&serde_json::json!(1))).await.unwrap();
             out.push_str(&format!("att={:x} res={} conn={}", take_attempts(), res_s(r.value.is_some(), r.error.as_ref()), fleet.is_connected("n0").await.unwrap() as u8));
             let mut fl = Vec::new();
@@ -182,9 +255,99 @@ fn run_scenario(kind: &str, max: usize, script: &str, nfollow: usize) -> String 
                 fl.push(format!("{:x}:{}", take_attempts(), res_s(r.0, r.1.as_ref())));
             }
             out.push_str(&format!(" follow={}", if fl.is_empty() { "-".into() } else { fl.join(",") }));
+            stop.store(true, Ordering::Relaxed);
+            for m in monitors { let _ = m.await; }
         });
     }
     CUR.with(|c| *c.borrow_mut() = None);
+    node.stop.store(true, Ordering::SeqCst);
+    node.close_conns();
+    out
+}
+
+/// polls a future with the caller role set, so that the `fleet.attempt` probe knows whose attempt starts
+struct WithRole<F> { role: u8, fut: std::pin::Pin<Box<F>> }
+impl<F: std::future::Future> std::future::Future for WithRole<F> {
+    type Output = F::Output;
+    fn poll(mut self: std::pin::Pin<&mut Self>, cx: &mut std::task::Context<'_>) -> std::task::Poll<F::Output> {
+        let role = self.role;
+        ROLE.with(|r| r.set(role));
+        let p = self.fut.as_mut().poll(cx);
+        ROLE.with(|r| r.set(0));
+        p
+    }
+}
+
+/// Two concurrent callers on one node (timeout DUO_T), sharing its cached connection: A's request is
+/// read and never answered (every attempt of A times out); B's request, sent half a timeout after the
+/// node has A's, is answered as soon as A has given its first attempt up, i.e. well inside B's own
+/// deadline. Reported: B's attempts/result, how often the node saw B's request, A's attempts/result,
+/// whether the node really answered B in time (ready=1), and two calls afterwards.
+fn run_duo(kind: &str, max: usize, api: &str) -> String {
+    let node = Node::start();
+    let d = Arc::new(Duo { a_att: AtomicU64::new(0), b_att: AtomicU64::new(0), a_gone: AtomicBool::new(false), hang: AtomicU64::new(0), slow: AtomicU64::new(0), b_start: Mutex::new(None), ready: AtomicU64::new(0) });
+    *DUO.lock().unwrap() = Some(d.clone());
+    let cfg = NodeConfig::new("127.0.0.1", node.port).unwrap().with_name("n0").unwrap().with_timeout(DUO_T).unwrap();
+    let opts = FleetOptions { default_timeout: DUO_T, retry_policy: RetryPolicy { max_attempts: max, delay: Duration::from_millis(1) } };
+    let res_s = |v: bool, e: Option<&RepeError>| if v { if e.is_some() { "value+error".to_string() } else { "value".to_string() } } else { e.map(kind_s).unwrap_or_else(|| "noerror".into()) };
+    let msg = api == "msg";
+    let (ra, rb, fl): ((bool, Option<RepeError>), (bool, Option<RepeError>), Vec<String>);
+    if kind == "blocking" {
+        let fleet = Arc::new(Fleet::with_options(vec![cfg], opts).unwrap());
+        let (fa, da) = (fleet.clone(), d.clone());
+        let a = std::thread::spawn(move || {
+            ROLE.with(|r| r.set(1));
+            let r = fa.call_json("n0", "/hang", Some(&serde_json::json!(1))).unwrap();
+            da.a_gone.store(true, Ordering::SeqCst);
+            ROLE.with(|r| r.set(0));
+            (r.value.is_some(), r.error)
+        });
+        let t0 = Instant::now();
+        while d.hang.load(Ordering::SeqCst) == 0 && t0.elapsed() < Duration::from_secs(5) { std::thread::sleep(Duration::from_millis(1)); }
+        std::thread::sleep(DUO_T / 2);
+        let (fb, db) = (fleet.clone(), d.clone());
+        let b = std::thread::spawn(move || {
+            ROLE.with(|r| r.set(2));
+            *db.b_start.lock().unwrap() = Some(Instant::now());
+            let r = if msg { let r = fb.call_message("n0", "/slow").unwrap(); (r.value.is_some(), r.error) } else { let r = fb.call_json("n0", "/slow", Some(&serde_json::json!(2))).unwrap(); (r.value.is_some(), r.error) };
+            ROLE.with(|r| r.set(0));
+            r
+        });
+        rb = b.join().unwrap();
+        ra = a.join().unwrap();
+        fl = (0..2).map(|_| { let r = fleet.call_json("n0", "/x", Some(&serde_json::json!(3))).unwrap(); res_s(r.value.is_some(), r.error.as_ref()) }).collect();
+    } else {
+        let rt = tokio::runtime::Builder::new_current_thread().enable_all().build().unwrap();
+        (ra, rb, fl) = rt.block_on(async {
+            let fleet = AsyncFleet::with_options(vec![cfg], opts).unwrap();
+            let (fa, da) = (fleet.clone(), d.clone());
+            let a = WithRole { role: 1, fut: Box::pin(async move {
+                let r = fa.call_json("n0", "/hang", Some(&serde_json::json!(1))).await.unwrap();
+                da.a_gone.store(true, Ordering::SeqCst);
+                (r.value.is_some(), r.error)
+            }) };
+            let (fb, db) = (fleet.clone(), d.clone());
+            let b = WithRole { role: 2, fut: Box::pin(async move {
+                let t0 = Instant::now();
+                while db.hang.load(Ordering::SeqCst) == 0 && t0.elapsed() < Duration::from_secs(5) { tokio::time::sleep(Duration::from_millis(1)).await; }
+                tokio::time::sleep(DUO_T / 2).await;
+                *db.b_start.lock().unwrap() = Some(Instant::now());
+                if msg { let r = fb.call_message("n0", "/slow").await.unwrap(); (r.value.is_some(), r.error) } else { let r = fb.call_json("n0", "/slow", Some(&serde_json::json!(2))).await.unwrap(); (r.value.is_some(), r.error) }
+            }) };
+            let (ra, rb) = tokio::join!(a, b);
+            let mut fl = Vec::new();
+            for _ in 0..2 { let r = fleet.call_json("n0", "/x", Some(&serde_json::json!(3))).await.unwrap(); fl.push(res_s(r.value.is_some(), r.error.as_ref())); }
+            (ra, rb, fl)
+        });
+    }
+    // the node thread records `ready` right after writing its reply to B's first request: wait for that record
+    let t0 = Instant::now();
+    while d.ready.load(Ordering::SeqCst) == 0 && t0.elapsed() < 5 * DUO_T { std::thread::sleep(Duration::from_millis(1)); }
+    let out = format!("att={:x} res={} slow={:x} a={:x}:{} hang={:x} ready={} follow={}",
+        d.b_att.load(Ordering::SeqCst), res_s(rb.0, rb.1.as_ref()), d.slow.load(Ordering::SeqCst),
+        d.a_att.load(Ordering::SeqCst), res_s(ra.0, ra.1.as_ref()), d.hang.load(Ordering::SeqCst),
+        (d.ready.load(Ordering::SeqCst) == 1) as u8, fl.join(","));
+    *DUO.lock().unwrap() = None;
     node.stop.store(true, Ordering::SeqCst);
     node.close_conns();
     out
@@ -229,9 +392,14 @@ fn run_case(line: &str) -> String {
         return guard(move || run_tags(&kind, &nt, want, dup, slow)).unwrap_or_else(|_| "crash=panic".into());
     }
     let max: usize = f["max"].parse().unwrap();
+    if f.contains_key("duo") {
+        let api = f.get("api").cloned().unwrap_or_else(|| "json".into());
+        return guard(move || run_duo(&kind, max, &api)).unwrap_or_else(|_| "crash=panic".into());
+    }
+    let mon: usize = f.get("mon").and_then(|m| m.parse().ok()).unwrap_or(0);
     let script = if f["script"] == "-" { String::new() } else { f["script"].clone() };
     let nfollow: usize = f["nfollow"].parse().unwrap();
-    guard(move || run_scenario(&kind, max, &script, nfollow)).unwrap_or_else(|_| "crash=panic".into())
+    guard(move || run_scenario(&kind, max, &script, nfollow, mon)).unwrap_or_else(|_| "crash=panic".into())
 }
 
 fn gen_cases(_seed: u64, thorough: bool) -> Vec<String> {
@@ -271,6 +439,26 @@ fn gen_cases(_seed: u64, thorough: bool) -> Vec<String> {
                     if n >= 2 && (idx + want) % (if thorough { 16 } else { 64 }) == 3 { cases.push(format!("kind={kind} tags={} want={want} slow={}", tags.join("."), idx % n)); }
                 }
             }
+        }
+    }
+    // the async scripted scenarios again (scripts of length <= 2, at most one silent attempt) while three
+    // monitor tasks poll is_connected / connected_nodes on other runtime threads: observers change nothing,
+    // so the same model and oracle judge them (appended: the indices of the cases above stay as they were)
+    for max in 1..=3usize {
+        for len in 0..=2usize {
+            for idx in 0..alpha.len().pow(len as u32) {
+                let mut k = idx; let mut s = String::new();
+                for _ in 0..len { s.push(alpha[k % alpha.len()]); k /= alpha.len(); }
+                if s.matches('S').count() > 1 { continue; }
+                cases.push(format!("kind=async max={max} script={} nfollow={} mon=3", if s.is_empty() { "-" } else { &s }, len + 2));
+            }
+        }
+    }
+    // two concurrent callers on one node sharing its cached connection: A is never answered and times
+    // out while B's later request is answered in time
+    for kind in ["blocking", "async"] {
+        for max in 1..=2usize {
+            for api in ["json", "msg"] { cases.push(format!("kind={kind} duo=1 max={max} api={api}")); }
         }
     }
     cases.into_iter().enumerate().map(|(i, c)| format!("i={i} {c}")).collect()
